@@ -7,6 +7,8 @@
 //! correctness bug (saturating clamp + warn log), not a rounding artefact.
 
 mod local_drain;
+#[cfg(feature = "verif-hooks")]
+pub use local_drain::verif as verif_gauges;
 pub mod names;
 mod network_drain;
 mod writer;
